@@ -329,6 +329,33 @@ fn main() {
             }
         }
     }
+    // every tuple arity: n patterns of one method composed as one real n-tuple (vh::spec::compose);
+    // for every k the k-th is the first that accepts
+    for total in 2..=16usize {
+        for k in 0..total {
+            let clauses = (0..total)
+                .map(|pi| ClauseSpec::Single {
+                    m: M::A,
+                    entry: Entry::EachCall,
+                    pat: PatSpec {
+                        mask: if pi >= k { 7 } else { 0 },
+                        segs: vec![Seg {
+                            resp: Resp::Ret(1000 + pi as u32),
+                            quant: Quant::Open,
+                        }],
+                    },
+                })
+                .collect();
+            cases.push(Case {
+                label: format!("tuple-arity/{total}/first-accepting={k}"),
+                config: Config { partial: false, clauses },
+                histories: HistGen::All {
+                    alphabet: vec![Call::new(M::A, 0), Call::new(M::A, 1)],
+                    depth: 2,
+                },
+            });
+        }
+    }
     ctx.watchdog(120, || J::Str("no progress in the C01 explorer".into()));
     let stats = explore_cases(ctx, &cases, opts, &no_extra);
     guard(&stats, 4, true);
